@@ -21,6 +21,12 @@ type Family struct {
 	Ends     []string   // end ops for scripts with writes
 	SlotEnds [][]string // optional per-slot override of Ends
 	ReadOnly []bool     // optional per slot: the transaction is opened read-only (NewTransaction(false))
+	// Prelude is a fixed sequential history executed (inside the same execution and
+	// namespace) before every enumerated interleaving; Fixed, when set, gives each slot's
+	// exact script list instead of generating it from Slots/MaxOps. A script whose first
+	// element is "~" continues a transaction that the prelude already began.
+	Prelude  string
+	Fixed    [][]Script
 	Reduce   bool       // prune merges equivalent under commuting independent steps
 	Symmetry bool       // all slots identical and alphabet closed under a<->b: enumerate canonical tuples only
 	Fresh    bool       // every history on a fresh DB (else: long-lived DB, one key namespace per history)
@@ -30,6 +36,9 @@ type Family struct {
 }
 
 func (f Family) Bounds() string {
+	if f.Fixed != nil {
+		return fmt.Sprintf("%s(prelude=%q,scripts=%v,fresh=%v,por=%v)", f.Name, f.Prelude, f.Fixed, f.Fresh, f.Reduce)
+	}
 	return fmt.Sprintf("%s(txns=%d,ops<=%v,alphabet=%v,ends=%v,fresh=%v,warm=%d,env=%v,por=%v)", f.Name, len(f.Slots), f.MaxOps, f.Slots[0], f.Ends, f.Fresh, f.Warm, f.EnvSets, f.Reduce)
 }
 
@@ -256,8 +265,23 @@ func hasSig(fs []Finding, sig string) bool {
 
 // Enumerate walks every history of the family that belongs to this shard.
 func (d *Driver) Enumerate(f *Family, sh vr.ShardInfo, expired func() bool) {
-	lists := make([][]Script, len(f.Slots))
-	for i := range f.Slots {
+	var prelude []Step
+	if f.Prelude != "" {
+		var err error
+		if prelude, err = Parse(f.Prelude); err != nil {
+			vr.Fatalf("family %s: %v", f.Name, err)
+		}
+	}
+	nslots := len(f.Slots)
+	if f.Fixed != nil {
+		nslots = len(f.Fixed)
+	}
+	lists := make([][]Script, nslots)
+	for i := 0; i < nslots; i++ {
+		if f.Fixed != nil {
+			lists[i] = f.Fixed[i]
+			continue
+		}
 		ends := f.Ends
 		if f.SlotEnds != nil {
 			ends = f.SlotEnds[i]
@@ -287,6 +311,9 @@ func (d *Driver) Enumerate(f *Family, sh vr.ShardInfo, expired func() bool) {
 			}
 			Merges(tuple, f.Reduce, func(h []Step) {
 				visit := func(hh []Step) {
+					if len(prelude) > 0 {
+						hh = append(append(make([]Step, 0, len(prelude)+len(hh)), prelude...), hh...)
+					}
 					item++
 					if stop || !sh.Owns(item) {
 						return
